@@ -681,7 +681,7 @@ def expand_additional_doses(model: Model, flag: bool = False):
         df['_RESETGROUP'] = 1.0
     else:
         df['_FLAG'] = df[event] >= 3
-        df['_RESETGROUP'] = df.groupby('ID')['_FLAG'].cumsum()
+        df['_RESETGROUP'] = df.groupby(idcol)['_FLAG'].cumsum()
         df.drop('_FLAG', axis=1, inplace=True)
 
     def fn(a):
@@ -767,7 +767,7 @@ def get_doseid(model: Model):
         df['_RESETGROUP'] = 1.0
     else:
         df['_FLAG'] = df[eventcol] >= 3
-        df['_RESETGROUP'] = df.groupby('ID')['_FLAG'].cumsum()
+        df['_RESETGROUP'] = df.groupby(idcol)['_FLAG'].cumsum()
 
     try:
         ss = model.datainfo.typeix['ss'][0].name
